@@ -14,6 +14,7 @@ replay never depends on the PRNG:
    "genmap": [[pos, rate, cM], ...] or None}
 """
 import os
+import random
 
 from . import sim
 
@@ -215,6 +216,107 @@ def add_decoy_read(case):
                               "sample": case["samples"][0], "flag": 0, "mapq": 60})
 
 
+# ------------------------------------------------------------------------------------------------
+# cross-contig layouts of a `--ped` run (round 10, seed C05-i; after gen/c09_layout.py)
+# ------------------------------------------------------------------------------------------------
+# The writer / reader are driven once per chromosome; anything they remember from the chromosome before (the position of
+# the record that received phasing last, ...) only shows when positions of DIFFERENT contigs coincide.  A case is one
+# family data set on `chr1`; a layout adds contigs `chr2`, `chr3` AFTER it that carry the same family data
+#   base   identical    every record of chr1
+#          subset       a random part of chr1's records (own first / last sites, own components)
+#   chain  None         same coordinates as chr1 (no shift)
+#          ends         shifted so that the contig's FIRST record stands at the position of the LAST record of the contig before
+#          phased       ... its first record that will be phased stands at the position of the last phased record of the contig before
+#          second       ... its SECOND phased record stands there (coincidence in the middle of a phase set)
+#   skip_middle         three contigs, the middle one is not selected by --chromosome (it must not reset anything either)
+# Shifts are realised by padding the contig's sequence in front, so reads and reference stay consistent.
+
+def _pad(shift):
+    return sim.random_seq(random.Random(shift * 7919 + 1), shift) if shift else ""
+
+
+def contig_specs(case):
+    """contigs in file order: [(name, shift, set of dropped variant indices)]"""
+    if case.get("contigs"):
+        return [(c["name"], c.get("shift", 0), set(c.get("drop", []))) for c in case["contigs"]]
+    names = ([case["twin"]] if case.get("twin") else []) + [case["contig"]]
+    return [(n, 0, set()) for n in names]
+
+
+def selected_contigs(case, args):
+    """names of the contigs the run phases (all, or those given by --chromosome), in file order"""
+    chosen = [args[i + 1] for i, a in enumerate(args) if a == "--chromosome"]
+    return [n for n, _, _ in contig_specs(case) if not chosen or n in chosen]
+
+
+def _consistent(gf, gm, gc):
+    return any(sorted((a, b)) == sorted(gc) for a in gf for b in gm)
+
+
+def likely_phased_indices(case, genetic=True):
+    """variant indices that a trusted `--ped` run will most probably phase in some member: no missing genotype and no
+    Mendelian conflict in the family, some member heterozygous, and (genetic haplotyping) some member homozygous or
+    (otherwise) reads present.  Only used to place coincidences; the check measures from the OUTPUT where they really are"""
+    fam = sorted({x for t in case["trios"] for x in t})
+    out = []
+    for i in range(len(case["variants"])):
+        g = {s: [int(x) for x in case["gt"][s][i].replace("|", "/").split("/") if x.isdigit()] for s in fam}
+        if any(len(v) != 2 for v in g.values()):
+            continue
+        if any(not _consistent(g[f], g[m], g[c]) for f, m, c in case["trios"]):
+            continue
+        het = [s for s in fam if len(set(g[s])) == 2]
+        hom = [s for s in fam if len(set(g[s])) == 1]
+        if het and ((genetic and hom) or len(case["reads"]) > 1):
+            out.append(i)
+    return out
+
+
+def add_layout(rng, case, genetic=True, force=None):
+    """adds `contigs` (and returns the --chromosome arguments, [] = all contigs) to a family case"""
+    lay = dict(force) if force else {"base": rng.choice(["identical", "identical", "subset", "subset", "subset"]),
+                                     "chain": rng.choice(["phased", "phased", "phased", "phased", "ends", "second", None]),
+                                     "n": rng.choice([2, 2, 3]), "skip_middle": False}
+    if lay["n"] == 3 and not force:
+        lay["skip_middle"] = rng.random() < 0.6
+    n = len(case["variants"])
+    pos = [v["pos"] for v in case["variants"]]
+    anchors = likely_phased_indices(case, genetic)
+    specs = [{"name": case["contig"], "shift": 0, "drop": []}]
+    for k in range(1, lay["n"]):
+        drop = []
+        if lay["base"] == "subset":
+            cut = rng.randrange(0, max(1, n // 3))
+            drop = sorted(set(list(range(cut)) + [i for i in range(cut, n) if rng.random() < 0.2]))
+            if len(drop) >= n - 1:
+                drop = []
+        specs.append({"name": f"chr{k + 1}", "shift": 0, "drop": drop})
+    # chain: the contig BEFORE contig k in the run (the middle one does not count when it is deselected)
+    for k in range(1, lay["n"]):
+        if lay["skip_middle"] and lay["n"] == 3 and k == 1:
+            specs[1]["shift"] = rng.choice([0, specs[0]["shift"]])
+            continue
+        prev = specs[0] if (lay["skip_middle"] and k == 2) else specs[k - 1]
+        cur = specs[k]
+        keep_prev = [i for i in range(n) if i not in prev["drop"]]
+        keep_cur = [i for i in range(n) if i not in cur["drop"]]
+        a_prev = [i for i in anchors if i not in prev["drop"]]
+        a_cur = [i for i in anchors if i not in cur["drop"]]
+        off = 0
+        if lay["chain"] == "ends" and keep_prev and keep_cur:
+            off = pos[keep_prev[-1]] - pos[keep_cur[0]]
+        elif lay["chain"] in ("phased", "second") and a_prev and a_cur:
+            first = a_cur[1] if (lay["chain"] == "second" and len(a_cur) > 1) else a_cur[0]
+            off = pos[a_prev[-1]] - pos[first]
+        cur["shift"] = max(0, prev["shift"] + off)
+    case["contigs"] = specs
+    case["layout"] = lay
+    case.pop("twin", None)
+    if lay["skip_middle"] and lay["n"] == 3:
+        return ["--chromosome", specs[0]["name"], "--chromosome", specs[2]["name"]]
+    return []
+
+
 PHASE_FMT_DEFS = {"PS": '##FORMAT=<ID=PS,Number=1,Type=Integer,Description="Phase set identifier">',
                   "HP": '##FORMAT=<ID=HP,Number=.,Type=String,Description="Phasing haplotype identifier">'}
 
@@ -332,22 +434,25 @@ def write_case(case, d, prefix="in", phased_input=None):
     """writes FASTA, BAM, VCF (+ PED, + genetic map); returns dict of paths"""
     os.makedirs(d, exist_ok=True)
     add_decoy_read(case)
-    # optional twin: the same data once more on a chromosome that comes FIRST in all files (a run over several chromosomes)
-    names = ([case["twin"]] if case.get("twin") else []) + [case["contig"]]
-    contigs = {n: case["seq"] for n in names}
+    # several chromosomes in one run: `twin` (the same data once more on a chromosome that comes FIRST in all files) or a
+    # cross-contig layout `contigs` (add_layout): copies of the data, shifted / thinned out, in file order
+    specs = contig_specs(case)
+    contigs = {n: _pad(shift) + case["seq"] for n, shift, _ in specs}
     fa, bam, vcf = (os.path.join(d, prefix + e) for e in (".fasta", ".bam", ".vcf"))
     sim.write_fasta(fa, contigs)
-    reads = [{"name": r["name"] + ("" if n == case["contig"] else "_" + n), "chrom": n, "start": r["start"],
+    reads = [{"name": r["name"] + ("" if n == case["contig"] else "_" + n), "chrom": n, "start": r["start"] + shift,
               "cigar": [tuple(c) for c in r["cigar"]],
               "seq": r["seq"], "rg": "rg_" + r["sample"], "flag": r.get("flag", 0), "mapq": r.get("mapq", 60)}
-             for n in names for r in case["reads"]]
+             for n, shift, _ in specs for r in case["reads"]]
     sim.write_bam(bam, contigs, reads, [("rg_" + s, s) for s in case["samples"]])
     recs = []
     pkeys = phase_format_keys(case)
-    for n in names:
+    for n, shift, drop in specs:
         for i, v in enumerate(case["variants"]):
+            if i in drop:
+                continue
             calls = [phased_call(case, s, i) for s in case["samples"]]
-            recs.append({"chrom": n, "pos": v["pos"], "ref": v["ref"], "alts": [v["alt"]], "calls": calls, "format": ["GT"] + pkeys})
+            recs.append({"chrom": n, "pos": v["pos"] + shift, "ref": v["ref"], "alts": [v["alt"]], "calls": calls, "format": ["GT"] + pkeys})
     sim.write_vcf(vcf, contigs, case["samples"], recs, fmt_defs={k: PHASE_FMT_DEFS[k] for k in pkeys})
     out = {"fasta": fa, "bam": bam, "vcf": vcf}
     if case.get("ped"):
